@@ -4,6 +4,69 @@ from lib import common
 from xh.runner import Cond, run_conditions
 
 
+def _links(rep, tier):
+    """LINK clause, by a CONCRETE run (no solver: the input space of this clause is the type graph, which has no symbolic handle): the real nnvg
+    generates the pages of /verif/data/ns5 (two versions of a type, a nested namespace, a service, a message named Request, array and scalar
+    references); every hyperlink emitted for a reference to a type must name a generated page that carries the anchor."""
+    import html.parser
+    import os
+    import pathlib
+    import re
+    from llsym import build
+    with common.scratch("nvc20l_") as d:
+        try:
+            build.nnvg("html", d / "out", common.VERIF / "data" / "ns5" / "lk")
+        except Exception as e:
+            rep.unknown("links:generate", f"nnvg failed: {str(e)[-300:]}")
+            return
+        pages = {p: p.read_text() for p in (d / "out").rglob("*.html")}
+
+        class Ids(html.parser.HTMLParser):
+            def __init__(self):
+                super().__init__()
+                self.ids, self.hrefs = set(), []
+
+            def handle_starttag(self, tag, attrs):
+                a = dict(attrs)
+                if a.get("id"):
+                    self.ids.add(a["id"])
+                if tag == "a" and a.get("href"):
+                    self.hrefs.append(a["href"])
+        parsed = {}
+        for p, text in pages.items():
+            body = re.sub(r"<script.*?</script>", "", text, flags=re.S)          # hrefs inside bundled JavaScript are template strings, not links
+            h = Ids()
+            h.feed(body)
+            parsed[p] = h
+        checked = bad = 0
+        for p, h in parsed.items():
+            for href in h.hrefs:
+                if href.startswith(("javascript:", "http://", "https://")) or "${" in href or href == "/reg/Namespace.html":
+                    continue
+                path, _, anchor = href.partition("#")
+                target = p if path == "" else pathlib.Path(os.path.normpath(str(p.parent / path)))
+                if path.endswith("/") or (path and target.is_dir()):
+                    target = target / "index.html"
+                checked += 1
+                ok = target in parsed and (anchor == "" or anchor in parsed[target].ids)
+                if ok:
+                    rep.discharged(1, key=f"link:{p.relative_to(d / 'out')}:{href}")
+                    continue
+                bad += 1
+                rel = str(p.relative_to(d / "out"))
+                kind = "service-half" if re.search(r"_(Request|Response)_\d+_\d+$", anchor) and "Svc" in anchor else \
+                    ("from-nested-namespace-page" if rel.count("/") >= 2 else "other")
+                rd = common.replay_dir("C20", dict(link=href, page=rel))
+                (rd / "replay.sh").write_text("#!/bin/bash\n# regenerate the html pages of /verif/data/ns5 and look for the anchor\nD=$(mktemp -d)\n"
+                                              f"{common.PY} -m nunavut --target-language html --experimental-languages -O $D {common.VERIF}/data/ns5/lk >/dev/null\n"
+                                              f"echo 'page {rel} links to {href}'; T=$(realpath -m $D/{pathlib.Path(rel).parent}/{path})/index.html; "
+                                              f"test -f $T && grep -q 'id=\"{anchor}\"' $T && exit 0; echo 'target page or anchor missing'; rm -rf $D; exit 11\n")
+                os.chmod(rd / "replay.sh", 0o755)
+                rep.counterexample(f"link-{kind}", f"page {rel}: hyperlink {href} -> {'no such page' if target not in parsed else 'page has no such anchor'} "
+                                   f"({target.relative_to(d / 'out') if str(target).startswith(str(d / 'out')) else target})", str(rd), True)
+        rep.extra["link_cosimulation"] = dict(pages=len(pages), links_checked=checked, unresolved=bad, kind="concrete run of the real nnvg, not a solver verdict")
+
+
 def main(tier: str) -> int:
     rep = common.Report("C20", tier, "other")
     rep.functions = ["nunavut.lang.html templates: type_base.j2, type_info.j2, namespace_info.j2, sidebar.j2, Namespace.j2 (rendered by the real "
@@ -12,18 +75,27 @@ def main(tier: str) -> int:
     n = "2" if tier == "quick" else "3"
     T = 600 if tier == "quick" else 3000
     conds = [Cond(M, f, T, 200, dict(C20_MAXLEN=n)) for f in ("type_doc_is_inert", "field_doc_is_inert")]
+    # documentation built from whole tokens (character references, tags); namespace documentation needs a namespace with a `_` type (ns4)
+    for tok in range(13):
+        conds.append(Cond(M, "namespace_doc_tokens_are_inert", T, 200, dict(C20_NS="ns4/hd", C20_TOK=str(tok))))
+        conds.append(Cond(M, "type_doc_tokens_are_inert", T, 200, dict(C20_TOK=str(tok))))
+        if tier != "quick":
+            conds.append(Cond(M, "field_doc_tokens_are_inert", T, 200, dict(C20_TOK=str(tok))))
     rep.bounds = dict(doc_text=f"1..{n} characters over the markup-significant alphabet {{<, >, &, a, double quote, single quote}}",
                       pages="the type's own page and the namespace index page of /verif/data/ns1 (3 types, nested + field documentation)",
-                      positions="type documentation and field documentation")
+                      positions="type documentation and field documentation; namespace documentation (header comment of the `_` type of /verif/data/ns4)",
+                      tokens="documentation made of 1..2 whole tokens from {<, >, &, quotes, a, &lt; &gt; &amp; &#60; &lt;b&gt; <b>, 'x y'} "
+                             "(type and namespace documentation; thorough: field documentation too)")
     rep.assumptions = ["class-representative alphabet: one letter stands for all non-markup characters",
                        "names and constant values are restricted to identifier/number syntax by pydsdl and are not made symbolic"]
-    rep.not_covered = ["well-formedness (balanced tags) and link targets for all type graphs: a property of the template text over all ASTs with no "
-                       "symbolic handle; not decided", "documentation longer than the bound", "namespace documentation (needs a type named '_')"]
+    rep.not_covered = ["well-formedness (balanced tags): not decided; link targets: only by a concrete run over the type graph of /verif/data/ns5 "
+                       "(no symbolic handle over all type graphs)", "documentation longer than the bounds"]
     rep.extra["explanation"] = ("CrossHair/z3 symbolic execution of the real template rendering with the documentation string symbolic; the page must equal "
                                 "the page rendered for an inert marker with the marker replaced by text that contains no < or >, whose every & starts a "
                                 "character reference, and that un-escapes to the documentation string")
     rep.extra["trusted_base"] = ["crosshair-tool 0.0.110", "z3", "CPython 3.12"]
     run_conditions(rep, conds)
+    _links(rep, tier)
     return rep.write()
 
 
